@@ -30,7 +30,7 @@ m = {
     "setup_cmd": "./check --build",
     "hooks": {
         "guard": "verif",
-        "enable": "none needed: every seam used is an exported constructor or interface; checks build /repo's current tree into the harness module (go test -c) without build tags",
+        "enable": "checks build /repo with `go test -c -tags verif` (pkg/foundation/verifhook yield points); without the tag verifhook.Yield is an empty function",
         "baseline_off_cmd": "cd /repo && go test -mod=mod -json -vet=off -count=1 -timeout 25m ./...",
         "source_commits": hooks_commits,
         "add_only": True,
